@@ -511,6 +511,13 @@ def replay(w):
             if not np.allclose(IA2, c * IA, rtol=1e-9, atol=0):
                 return True, 'amplitude does not scale with the IMF (factor %g, method %s): max rel diff %.3g' % (c, method, np.abs(IA2 / (c * IA) - 1).max())
             return False, 'ok'
+        if kind == 'wrap':
+            vals = np.array(w['vals'], float)
+            wv = emd.utils.wrap_phase(vals.copy())
+            kq = (vals - wv) / (2 * np.pi)
+            if wv.min() < 0 or wv.max() >= 2 * np.pi or not np.allclose(kq, np.round(kq), atol=1e-9):
+                return True, 'wrap_phase(%s) = %s: not in [0, 2pi) / not congruent to the argument' % (vals.tolist(), wv.tolist())
+            return False, 'ok'
         if kind == 'set':
             # a set of IMFs: strongly amplitude-modulated carriers followed by pure sinusoids.  Each column's estimates are those of the
             # column transformed on its own, and rescaling one column leaves every column's phase / frequency unchanged.
@@ -615,10 +622,10 @@ def refute(tier, seed, emit):
     import emd
     vals = np.array([-7.5, -2 * np.pi, -1e-9, -0.3, 0.0, 1.0, 2 * np.pi - 1e-9, 2 * np.pi, 6.5, 40.0, -40.0])
     emit.case(('wrap',), contract='wrap_phase')
-    wv = emd.utils.wrap_phase(vals.copy())
-    kq = (vals - wv) / (2 * np.pi)
-    if wv.min() < 0 or wv.max() >= 2 * np.pi or not np.allclose(kq, np.round(kq), atol=1e-9):
-        emit.violation('wrap-phase-range-and-congruence', {'kind': 'scale', 'method': 'hilbert', 'sr': 256, 'c': 1.0}, 'wrap_phase(%s) = %s' % (vals.tolist(), wv.tolist()))
+    w = {'kind': 'wrap', 'vals': vals.tolist()}
+    ok, msg = replay(w)
+    if ok:
+        emit.violation('wrap-phase-range-and-congruence', w, msg)
     r = rng(seed, 9)
     nrt = 20 if tier == 'quick' else 200
     emit.scope('%d smooth random frequency profiles + constant profiles, a quarter of them with 2-3 columns: freq -> phase -> freq (shape kept, columns independent)' % nrt)
